@@ -242,9 +242,12 @@ GcvVerdict(y, nd, grid, robust, hasP, p, out, lopt, fhints, hinted) ==
                  mn == MinOrd(sc, 2, sc[1])
                  kk == GridIndex(grid, lopt)
                  band == FixedVerdict(y, nd, lopt, out, hasP, p, fhints, hinted)
-             IN  IF RLt(RDiv(P!WRSS(yc, Solve(yc, wts, Lam(grid[1])), wts), RMax("1", P!WRSS(yc, Zeros(Len(y)), wts))), "1/1000000000000")
+                 \* share of the residual sum of squares at the smallest grid value (see VSelect for the two thresholds)
+                 share == RDiv(P!WRSS(yc, Solve(yc, wts, Lam(grid[1])), wts), RMax("1", P!WRSS(yc, Zeros(Len(y)), wts)))
+                 tb == IF RLt(share, "1/1000000000000") THEN NoisyBand ELSE TieBand
+             IN  IF RLt(share, "1/10000000000000000000000")
                  THEN <<"SKIP", "degenerate-criterion", "">>
-                 ELSE IF ~RLe(sc[kk], RMul(mn, TieBand)) THEN <<"REJECT", "GcvMin", ToString(kk)>>
+                 ELSE IF ~RLe(sc[kk], RMul(mn, tb)) THEN <<"REJECT", "GcvMin", ToString(kk)>>
                  ELSE IF band[1] = "REJECT" THEN <<"REJECT", "BandIsFixed:" \o band[2], band[3]>>
                  ELSE band
 =============================================================================
